@@ -16,6 +16,10 @@ func init() {
 			thorough = append(thorough, &Job{Pkg: "", Func: "ZZ_C18_Blocking", Args: []int64{q, sc, (q + sc + 1) % 5}, Bounds: b})
 		}
 	}
+	for _, q := range []int64{1, 2} {
+		quick = append(quick, &Job{Pkg: "", Func: "ZZ_C18_NonBlockingRace", Args: []int64{q, 1*8 + 0}, Bounds: "two writers race for the last free slot behind a sender that never runs"})
+	}
+	thorough = append(thorough, &Job{Pkg: "", Func: "ZZ_C18_NonBlockingRace", Args: []int64{3, 6*8 + 2}, Bounds: "two writers race for the last free slot"})
 	// the C01 harness also asserts that on an open channel only the queue-full error is ever returned
 	q0, _ := writerJobs(0)
 	for _, j := range q0 {
@@ -25,7 +29,7 @@ func init() {
 	}
 	Specs["C18"] = &Spec{
 		Jobs: jobsBy(quick, thorough), Labels: labelFilter("c18-"),
-		MustReach: []string{"c18-nonblocking-exact-done", "c18-nonblocking-live-done", "c18-blocking-done", "c18-waiter-parked", "c18-waiter-failed", "c18-waiter-succeeded"},
+		MustReach: []string{"c18-nonblocking-exact-done", "c18-nonblocking-live-done", "c18-blocking-done", "c18-waiter-parked", "c18-waiter-failed", "c18-waiter-succeeded", "c18-nonblocking-race-done"},
 		Bounds: map[string]string{
 			"quick":    "queue sizes 1-2, 2 concurrent writers in the live non-blocking case, one waiting writer in the blocking scenarios",
 			"thorough": "queue size 3, 3 concurrent writers, a second entry point per scenario",
